@@ -2104,6 +2104,15 @@ func (d *Data) GetRegionSynapses(ctx *datastore.VersionedCtx, ext *dvid.Extents3
 	blockSize := d.blockSize()
 	begBlockCoord, endBlockCoord := ext.BlockRange(blockSize)
 
+	// One range query is made per (y,z) row of blocks: refuse regions that would need more
+	// queries than any stored volume has rows, instead of looping (practically) forever.
+	const maxBlockRows = 1 << 24
+	rowsZ := int64(endBlockCoord[2]) - int64(begBlockCoord[2]) + 1
+	rowsY := int64(endBlockCoord[1]) - int64(begBlockCoord[1]) + 1
+	if rowsZ > 0 && rowsY > 0 && rowsZ*rowsY > maxBlockRows {
+		return nil, fmt.Errorf("requested region spans %d x %d rows of blocks, more than the %d supported per request", rowsY, rowsZ, maxBlockRows)
+	}
+
 	// d.RLock()
 	// defer d.RUnlock()
 
